@@ -22,11 +22,6 @@ def widenCls : PyVal → PyVal
   | .typ .float => .tuple [.typ .int, .typ .float]
   | v => v
 
-def strOfV (c : Ctx) (x : V) : List Nat :=
-  match x.v with
-  | .str s => s
-  | v => c.strOf v
-
 def cmpRel (test : Ord4 → Bool) (a b : PyVal) : Res Bool := (pyCmp a b).map test
 
 def lenRel (c : Ctx) (test : Ord4 → Bool) : Res Bool :=
